@@ -1,6 +1,7 @@
 // Copyright Amazon.com, Inc. or its affiliates. All Rights Reserved.
 // SPDX-License-Identifier: Apache-2.0
 
+#[cfg_attr(metrique_verif_loom, allow(unused_imports))]
 use std::{
     sync::OnceLock,
     time::{Duration, Instant},
@@ -8,6 +9,14 @@ use std::{
 
 // only pub(crate) so that the macro calls can all use the same epoch static
 #[doc(hidden)]
+#[cfg(metrique_verif_loom)]
+pub(crate) fn time_since_arbitrary_epoch() -> Duration {
+    // verification builds: the rate limiter follows the scheduler-controlled fake clock
+    metrique_writer_core::__verif::time::since_epoch()
+}
+
+#[doc(hidden)]
+#[cfg(not(metrique_verif_loom))]
 pub(crate) fn time_since_arbitrary_epoch() -> Duration {
     static EPOCH: OnceLock<Instant> = OnceLock::new();
     Instant::now().duration_since(*EPOCH.get_or_init(Instant::now))
